@@ -91,13 +91,25 @@ def gen_case(rng, stream: str) -> dict:
             q = rng.choice(extra)                    # a file the target does not have
             prior[q] = [rng.choice(cached_pool), base_kind]
     cache = set(cached_pool)
+    if stream == "converge" and prior is not None and len(paths) >= 2 and rng.random() < 0.25:
+        # content equal to the target, duplicates hard-linked to each other (no link to the cache)
+        x = rng.choice(["A", "B", "C", "D"])
+        for p in rng.sample(paths, 2):
+            target[p] = x
+            prior[p] = [x, "wshard"]
+        wsh = True
+    else:
+        wsh = False
     if stream == "converge":
         case["force"] = True
         case["prompt"] = "none"
         # user edits are allowed (force): uncached contents as plain files
         for p in list(prior):
-            if rng.random() < 0.2:
+            if rng.random() < 0.2 and prior[p][1] != "wshard":
                 prior[p] = [rng.choice(["U", "V", "W"]), "copy"]
+        if wsh and rng.random() < 0.6:
+            case["relink"] = True
+            case["types"] = [rng.choice(["copy", "copy", "hardlink", "symlink"])]
         # objects other than the target's may be gone from the cache
         for cid in cached_pool:
             if cid not in target.values() and rng.random() < 0.3:
@@ -336,6 +348,7 @@ def setup(ctx, case):
         clock.stamp(p)
     if prior is not None:
         os.makedirs(ws)
+        wsfirst: dict = {}
         for rel in sorted(prior):
             cid, kind = prior[rel]
             p = os.path.join(ws, *rel.split("/"))
@@ -349,6 +362,17 @@ def setup(ctx, case):
                 os.link(src, p)
             elif kind == "symlink":
                 os.symlink(src, p)
+            elif kind == "wshard":
+                # duplicates hard-linked TO EACH OTHER, not to the cache: the first path of a content is a plain
+                # file, the others are links to it
+                first = wsfirst.get(cid)
+                if first is None:
+                    with open(p, "wb") as f:
+                        f.write(contents[cid])
+                    clock.stamp(p)
+                    wsfirst[cid] = p
+                else:
+                    os.link(first, p)
             elif kind == "dangling":
                 os.symlink(os.path.join(cache, "zz", "gone"), p)
     for cid in sorted(need - set(case["cache"])):       # collected from the cache meanwhile
